@@ -105,6 +105,11 @@ def gen_cases(ctx):
                     if later == "nth":
                         st["args"]["index"] = 1
                     steps.append(st)
+            if kind == "float":
+                # and afterwards kernels that must DROP missing values on a float column holding NaN: whatever the
+                # first kernel's compilation left behind in the shared helpers (is_na / yield_groups) shows here
+                steps.append({"helper": "sum", "kind": "floatna", "args": {}})
+                steps.append({"helper": "count", "kind": "floatna", "args": {"drop_na": True}})
             hists.append(steps)
     kinds = ["float", "int", "date", "bool", "floatna"]
     if ctx.tier == "quick":
